@@ -584,10 +584,10 @@ func main() {
 		return
 	}
 	r.Observe("GOMAXPROCS", runtime.GOMAXPROCS(0))
-	for i := 0; i < r.Pick(3, 20); i++ {
+	for i := 0; i < r.Pick(6, 40); i++ {
 		runCase(r, Case{Kind: "stress", Stream: fmt.Sprintf("c18/stress/%d", i), Clients: r.Pick(8, 32), Ops: r.Pick(40, 150)})
 	}
-	nh := r.Pick(300, 12000)
+	nh := r.Pick(1500, 30000)
 	for i := 0; i < nh; i++ {
 		c := Case{Kind: "linearizability", Stream: fmt.Sprintf("c18/lin/%d", i), Clients: 3 + i%4, Ops: 6 + i%7, Capacity: 1 + i%3}
 		if i%50 == 49 {
